@@ -96,9 +96,11 @@ package config
 //@ func addressPoolFromCR
 //@   ensures [pool] result1 == nil ==> result0 != nil && fresh(result0) && result0.Name == p.Name && p.Name != "" && len(result0.CIDR) >= 1 && AllWf(result0.CIDR)
 //@   ensures [noAdvs] result1 == nil ==> result0.L2Advertisements == nil && result0.BGPAdvertisements == nil
+//@   ensures [entries] result1 == nil ==> EntriesOK(result0)
 //@   ensures result1 != nil ==> result0 == nil
 //@   modifies fresh *Pool, fresh []*net.IPNet, fresh *net.IPNet, fresh []string, fresh []interface{}, fresh map[string][]*net.IPNet, fresh *ServiceAllocation, fresh map[string]sets.Empty, fresh []labels.Selector
 //@   loop 1 binds cidr
+//@   loop 1 invariant [entries] forall n string :: (n in ret.cidrsPerAddresses) ==> len(ret.cidrsPerAddresses[n]) >= 1
 //@   loop 1 invariant ret != nil && fresh(ret) && ret.Name == p.Name && p.Name != "" && ret.cidrsPerAddresses != nil && fresh(ret.cidrsPerAddresses) && (ret.CIDR == nil || fresh(ret.CIDR)) && AllWf(ret.CIDR) && (iter > 0 ==> len(ret.CIDR) >= 1)
 
 // the attachment of advertisements and the remaining validations do not change pool names or address ranges
@@ -152,7 +154,7 @@ package config
 
 // NodeFree: no node address of the network's family lies inside it.
 //@ fun FamOfNet(c *net.IPNet) ipfamily.Family := ite(net.is4(c.IP), ipfamily.IPv4, ipfamily.IPv6)
-//@ pred NodeFree(nodes []corev1.Node, c *net.IPNet) := forall k int :: 0 <= k && k < len(k8snodes.NodeIPsForFamily(nodes, FamOfNet(c))) ==> !net.NetContains(*c, k8snodes.NodeIPsForFamily(nodes, FamOfNet(c))[k])
+//@ opaque pred NodeFree(nodes []corev1.Node, c *net.IPNet) := forall k int :: 0 <= k && k < len(k8snodes.NodeIPsForFamily(nodes, FamOfNet(c))) ==> !net.NetContains(*c, k8snodes.NodeIPsForFamily(nodes, FamOfNet(c))[k])
 //@ func poolsFor
 //@   ensures [nodeFree] result1 == nil ==> (forall n string, i int :: (n in result0.ByName) && 0 <= i && i < len(result0.ByName[n].CIDR) ==> NodeFree(resources.Nodes, result0.ByName[n].CIDR[i]))
 //@   loop 1 binds p
@@ -193,10 +195,33 @@ package config
 //@   loop 1 binds c
 //@   loop 1 invariant len(cidrs) > 0 && (forall i int :: 0 <= i && i < iter ==> lowest <= net.maskOnes(cidrs[i].Mask)) && (exists i int :: 0 <= i && i < len(cidrs) && lowest == net.maskOnes(cidrs[i].Mask))
 
-// advertisementsAreCompatible / isAggrLengthDifferent: the local-preference collision rule is not specified here (frame only)
-//@ func advertisementsAreCompatible
-//@   trusted
+// ---- C08: two advertisements that could give the same route different local preferences are rejected ----
+// HasFam: the pool has an address entry of that family. SameRoute: for a family the pool has, both advertisements use the
+// same aggregation length (so some address yields the same prefix from both). CommonPeer: no peer list, or a shared peer.
+// CommonNode: a node both select. Collide: all three.
+//@ pred EntriesOK(pool *Pool) := pool != nil && (forall n string :: (n in pool.cidrsPerAddresses) ==> len(pool.cidrsPerAddresses[n]) >= 1)
+//@ pred EntriesNonNil(pool *Pool) := forall n string :: (n in pool.cidrsPerAddresses) ==> pool.cidrsPerAddresses[n][0] != nil
+//@ pred HasFam(pool *Pool, v4 bool) := exists n string :: (n in pool.cidrsPerAddresses) && net.is4(pool.cidrsPerAddresses[n][0].IP) == v4
+//@ pred SameRoute(a *BGPAdvertisement, b *BGPAdvertisement, pool *Pool) := (HasFam(pool, true) && a.AggregationLength == b.AggregationLength) || (HasFam(pool, false) && a.AggregationLengthV6 == b.AggregationLengthV6)
+//@ pred CommonPeer(a *BGPAdvertisement, b *BGPAdvertisement) := len(a.Peers) == 0 || len(b.Peers) == 0 || (exists k int :: 0 <= k && k < len(a.Peers) && (a.Peers[k] in b.Peers))
+//@ pred CommonNode(a *BGPAdvertisement, b *BGPAdvertisement) := exists x string :: (x in a.Nodes) && (x in b.Nodes)
+//@ pred Collide(a *BGPAdvertisement, b *BGPAdvertisement, pool *Pool) := SameRoute(a, b, pool) && CommonPeer(a, b) && CommonNode(a, b)
+//@ func isAggrLengthDifferent
+//@   requires newAdv != nil && adv != nil && EntriesOK(pool) && EntriesNonNil(pool)
+//@   ensures result == !SameRoute(newAdv, adv, pool)
 //@   modifies nothing
+//@   loop 1 binds cidrs
+//@   loop 1 invariant forall n string :: (n in visited) ==> (n in pool.cidrsPerAddresses)
+//@   loop 1 invariant hasV4 == (exists n string :: (n in visited) && net.is4(pool.cidrsPerAddresses[n][0].IP))
+//@   loop 1 invariant hasV6 == (exists n string :: (n in visited) && !net.is4(pool.cidrsPerAddresses[n][0].IP))
+//@ func advertisementsAreCompatible
+//@   requires newAdv != nil && adv != nil && EntriesOK(pool) && EntriesNonNil(pool)
+//@   ensures result == !Collide(newAdv, adv, pool)
+//@   modifies nothing
+//@   loop 1 binds peer
+//@   loop 1 invariant len(newAdv.Peers) != 0 && len(adv.Peers) != 0 && !equalPeer && (forall k int :: 0 <= k && k < iter ==> !(newAdv.Peers[k] in adv.Peers))
+//@   loop 2 binds node
+//@   loop 2 invariant forall x string :: (x in visited) ==> !(x in adv.Nodes)
 
 // AggrOK: for every address entry of the pool, the aggregation length of the entry's family is not longer than the
 // shortest prefix among the entry's networks (for a range at least one of its summarising networks is aggregated whole).
@@ -206,10 +231,15 @@ package config
 //@ func validateBGPAdvPerPool
 //@   requires adv != nil && pool != nil && (forall n string, i int :: (n in pool.cidrsPerAddresses) && 0 <= i && i < len(pool.cidrsPerAddresses[n]) ==> pool.cidrsPerAddresses[n][i] != nil)
 //@   requires forall j int :: 0 <= j && j < len(pool.BGPAdvertisements) ==> pool.BGPAdvertisements[j] != nil
+//@   requires [entries] EntriesOK(pool)
 //@   ensures [aggregation] result == nil ==> (forall n string :: (n in pool.cidrsPerAddresses) ==> AggrOK(adv, pool, n))
+//@   ensures [localPref] result == nil ==> (forall j int :: 0 <= j && j < len(pool.BGPAdvertisements) ==> pool.BGPAdvertisements[j].LocalPref == adv.LocalPref || !Collide(adv, pool.BGPAdvertisements[j], pool))
 //@   modifies fresh []interface{}
 //@   loop 1 binds cidrs
 //@   loop 1 invariant forall n string :: (n in visited) ==> AggrOK(adv, pool, n)
+//@   loop 2 binds bgpAdv
+//@   loop 2 invariant forall n string :: (n in pool.cidrsPerAddresses) ==> AggrOK(adv, pool, n)
+//@   loop 2 invariant forall j int :: 0 <= j && j < iter ==> pool.BGPAdvertisements[j].LocalPref == adv.LocalPref || !Collide(adv, pool.BGPAdvertisements[j], pool)
 
 // ---- C08: which pools / nodes an advertisement selects ----
 // SelBy: some selector of the list matches the label set.
